@@ -122,6 +122,7 @@ type mirror struct {
 	errs    []string
 	closed  bool
 	cache   kcache.CacheReader // optional: C05 cache clause
+	maxSeen map[string]int     // newest version received per key since its last delete
 	cerrs   []string
 	ready   <-chan struct{}
 	preRdy  int // events received before Ready() closed
@@ -165,9 +166,17 @@ func (m *mirror) apply(e kcache.Event) {
 		m.preRdy++
 	}
 	m.seq = append(m.seq, evrec{e.Type(), k, rv, o, time.Now()})
+	if m.maxSeen == nil {
+		m.maxSeen = map[string]int{}
+	}
+	if e.Type() == kcache.EventTypeDelete {
+		delete(m.maxSeen, k)
+	} else if v := kit.Atoi(rv); v > m.maxSeen[k] {
+		m.maxSeen[k] = v
+	}
 	if m.cache != nil && cerr == nil && cached != nil {
-		if kit.Atoi(cached.GetResourceVersion()) < kit.Atoi(rv) && len(m.cerrs) < 5 {
-			m.cerrs = append(m.cerrs, fmt.Sprintf("%s: after receiving %s %s@%s the cache returned the older version %s", m.name, e.Type(), k, rv, cached.GetResourceVersion()))
+		if kit.Atoi(cached.GetResourceVersion()) < m.maxSeen[k] && len(m.cerrs) < 5 {
+			m.cerrs = append(m.cerrs, fmt.Sprintf("%s: on receiving %s %s@%s the cache returned version %s although version %d of that object had already been received", m.name, e.Type(), k, rv, cached.GetResourceVersion(), m.maxSeen[k]))
 		}
 	}
 	if !m.seeded {
@@ -319,6 +328,9 @@ func filterFamily() []*kit.Term {
 		kit.TNSName(nsnameNew("n0", "a")),
 		kit.TNSName(nsnameNew("n0", "a"), nsnameNew("n1", "c")),
 		kit.TNSName(nsnameNew("n1", "c"), nsnameNew("n0", "a"), nsnameNew("n0", "b")),
+		// composites that differ only in a non-comparable child
+		kit.TAnd(kit.TLabels(lx), kit.TFN("ns-is-n0", isN0)),
+		kit.TAnd(kit.TLabels(lx), kit.TFN("ns-is-n1", func(o metav1.Object) bool { return o.GetNamespace() == "n1" })),
 	}
 }
 
